@@ -19,6 +19,7 @@ import (
 
 	"github.com/dave/dst"
 	"github.com/dave/dst/decorator"
+	"github.com/dave/dst/dstutil"
 )
 
 func init() { register("C01", "model_checking", checkC01) }
@@ -340,6 +341,24 @@ func checkC01(c *Ctx) {
 	}
 	c01ListFields(c)
 	c01ElementTypes(c)
+	// the decorator carries what link() decided (sequentially: the hook is process-wide)
+	for i, f := range files {
+		if results[i].canonical {
+			c01Carried(c, f.Path, f.Src)
+		}
+	}
+	// ... also with a comment behind every token of every template fragment
+	if tsrc, err := templateSrc(); err == nil {
+		if ms, err := miniFiles(tsrc); err == nil {
+			for mi, m := range ms {
+				var buf bytes.Buffer
+				if decorator.Fprint(&buf, m) == nil {
+					c01Carried(c, fmt.Sprintf("template-fragment-%d/comment-every-token", mi), numberedComments(buf.Bytes(), 0, 1))
+					c01Carried(c, fmt.Sprintf("template-fragment-%d/comment-every-second-token", mi), numberedComments(buf.Bytes(), 1, 2))
+				}
+			}
+		}
+	}
 	c01Dirs(c)
 	c.Set("rule", "case = one gofmt-canonical file through one entry point (bytes compared), or one declaration snippet whose fragment list and attachments are validated by TLC against Link.tla; non-trivial = the input contains comments; distinct by path+entry / snippet text")
 }
@@ -862,4 +881,64 @@ func stripDecsNode(n dst.Node) {
 		d.End.Clear()
 		return true
 	})
+}
+
+// ---- decorateNode carries what link() decided, for every node type ----
+
+// c01Carried: the hooks export link()'s result (decorations per (node, point), spacing per node) together
+// with the ast node of every number; the dst node the decorator builds for it must hold exactly those
+// lists at exactly those points, and that spacing -- whatever the node type.
+func c01Carried(c *Ctx, key string, src []byte) {
+	fset := token.NewFileSet()
+	af, err := parser.ParseFile(fset, "", src, parser.ParseComments)
+	if err != nil {
+		return
+	}
+	d := decorator.NewDecorator(fset)
+	var derr error
+	_, linked, ok := captureLink(func() { _, derr = d.DecorateFile(af) })
+	if !ok || derr != nil {
+		return
+	}
+	c.Eval("carried|"+key, len(linked.Decs) > 0)
+	want := map[string][]string{}
+	for _, dd := range linked.Decs {
+		want[fmt.Sprintf("%d.%s", dd.Node, dd.Name)] = dd.D
+	}
+	sp := map[int][2]int{}
+	for _, s := range linked.Spaces {
+		sp[s.Node] = [2]int{s.Before, s.After}
+	}
+	for i, an := range linked.Nodes {
+		id := i + 1
+		dn := d.Dst.Nodes[an]
+		if dn == nil {
+			continue // C11's business
+		}
+		decs := dn.Decorations()
+		if int(decs.Before) != sp[id][0] || int(decs.After) != sp[id][1] {
+			c.Fail(Finding{Sig: "decorate-drops-spacing", Input: fmt.Sprintf("carried|%s|%T", key, an), What: fmt.Sprintf("%s: link() gave %T (node %d) Before=%d After=%d, the dst node has Before=%d After=%d", key, an, id, sp[id][0], sp[id][1], decs.Before, decs.After), Replay: obj{"kind": "c01snip", "src": string(src)}})
+			return
+		}
+		before, after, points := dstutil.Decorations(dn)
+		_, _ = before, after
+		got := map[string][]string{"Start": decs.Start.All(), "End": decs.End.All()}
+		for _, p := range points {
+			got[p.Name] = p.Decs
+		}
+		for name, g := range got {
+			w := want[fmt.Sprintf("%d.%s", id, name)]
+			if !sameStrings(g, w) {
+				c.Fail(Finding{Sig: "decorate-drops-decoration", Input: fmt.Sprintf("carried|%s|%T.%s", key, an, name), What: fmt.Sprintf("%s: link() attached %q to %T.%s (node %d), the dst node holds %q there", key, w, an, name, id, g), Replay: obj{"kind": "c01snip", "src": string(src)}})
+				return
+			}
+			delete(want, fmt.Sprintf("%d.%s", id, name))
+		}
+	}
+	for k, w := range want {
+		if len(w) > 0 {
+			c.Fail(Finding{Sig: "decorate-drops-decoration", Input: "carried|" + key + "|" + k, What: fmt.Sprintf("%s: link() attached %q to point %s, which no dst node offers", key, w, k), Replay: obj{"kind": "c01snip", "src": string(src)}})
+			return
+		}
+	}
 }
